@@ -444,7 +444,18 @@ armed for less than the resolution of the clock never fires (`TimerRec.live = fa
 (3) in `TLoop` a path may deliver *before* the instant it announced and the clock moves from event to event - a
 superset of the runs of a path with fixed per-packet delays, so nothing is lost, but the bound on the *time* of
 completion (as opposed to the number of steps) is not stated; (4) flows with `start_time`, `finish_time`,
-`arrival_dist`, `size_dist` or a size that is not a multiple of the MSS are outside the model (as for the rest of C16).
+`arrival_dist`, `size_dist` or a size that is not a multiple of the MSS are outside the model (as for the rest of C16);
+(5) both paths of `Loop` / `TLoop` are FIFO lists: that an ACK in flight is never below the acknowledged mark
+(`liveness_invariant`, fourth clause) is a *consequence* of that model, not a hypothesis of the theorems, and the termination
+measures use it.  For a return path that reorders ACKs what is proved is the sender-level part, for ACKs in any order:
+`sender_never_raises`, `last_ack_monotone` (the mark never moves back), `stale_ack_is_noop` (an overtaken ACK changes nothing),
+`timer_cancelled_only_by_ack_partial`; that such runs complete is searched by the overtaken-ACK leg of `harness/c16.py`
+(free return path, held ACKs, application-limited flows), not proved.
+
+**A finding** (repaired: `fix:` commit "the TCP sender ignores an acknowledgement overtaken by a later cumulative one"): `put`
+took an ACK with `ackno < last_ack` for a new ACK and moved `last_ack` back; the event queue could run empty with `last_ack`
+short of the flow size although the sink held everything, and an application-limited flow could stall for ever
+(`findings/demos/C16_stale_ack.py`).  With the early return `last_ack_monotone` holds without any order hypothesis.
 
 **A finding**: `mss ≤ cc.mss` is needed.  `TCPPacketGenerator.mss` is the constant 512 while the congestion-control
 object has its own `mss` parameter; with `TCPReno(mss=100, cwnd=512)`, a flow of 1024 bytes and the first transmission
